@@ -40,7 +40,12 @@ func stateAnnotation(s *Scanner, c byte) *jerr.JApiError {
 func stateMultilineAnnotationTextStart(s *Scanner, c byte) *jerr.JApiError {
 	s.foundAt(s.curIndex, AnnotationBegin)
 	s.step = stateMultilineAnnotation
-	return stateMultilineAnnotation(s, c)
+	// The first byte of the text cannot close the annotation: the '*' before it
+	// belongs to the opening "/*".
+	if c == EOF {
+		return s.japiErrorUnexpectedChar("multiline annotation", "*/")
+	}
+	return nil
 }
 
 func stateMultilineAnnotation(s *Scanner, c byte) *jerr.JApiError {
